@@ -6,7 +6,8 @@ Line protocol for C15 (sender authorisation).
 ```
 C15 run <checkHeader> <unauthAct> <noMatchAct> <errAct> <conn> <user> <mailFrom>
    | P <kind> <err>      prepare_email table: kind I(dentity) T(single) S(static, multi) M(multi),
-                         L (table.email_localpart) O (table.email_localpart_optional); err=1: every lookup fails
+                         L (table.email_localpart) O (table.email_localpart_optional),
+                         W (table.email_with_domain: the keys of its entries are the domains); err=1: every lookup fails
    | p <key> <val>*      one entry of it
    | U <kind> <err> , | u <key> <val>*     the same for user_to_email
    | fn <in> <ok> <out>  from_normalize(in)      (real function result)
@@ -22,8 +23,10 @@ C15 run <checkHeader> <unauthAct> <noMatchAct> <errAct> <conn> <user> <mailFrom>
    | U C 0 | us <optional> <kind> <err> | u <key> <val>* … | us …     user_to_email is a table.chain: every `us` group opens a
                          step (`step` / `optional_step` with a table of kind I T S M L O), the `u` groups after it are its rows;
                          `P C 0 | ps … | p …` the same for prepare_email
-   | N … | H … | G … | GF … | GS … | Z …   replay material for the Go side (ignored here)
+   | N … | H … | G … | GF … | GS … | Z … | K …   replay material for the Go side (ignored here)
 ```
+`C15 merge <verdict>*`: the verdicts (q quarantine, r reject, i a reason without action, - nothing) the checks of one
+check group returned at one stage, in the order their goroutines finished (`mergeResults`) → `refused` / `passed` (does the command fail?).
 `C15 sasl <ok> <normalised login name> <authzid> <authcid> <account whose password is sent>`: one AUTH PLAIN exchange
 (`saslPlain`; a password is the name of its account) → `auth-ok <AuthUser>` / `auth-failed`.
 The action arguments go through `parseActionDirective`; a written directive that does not parse makes `Init` fail:
@@ -88,10 +91,10 @@ def actionArgs? (letter : String) (args : List Str) : Option (List Str) :=
   | _ => none
 
 def kindOk (k : String) : Bool :=
-  k == "I" || k == "T" || k == "S" || k == "M" || k == "L" || k == "O" || k == "F" || k == "C"
+  k == "I" || k == "T" || k == "S" || k == "M" || k == "L" || k == "O" || k == "F" || k == "C" || k == "W"
 
 def stepKindOk (k : String) : Bool :=
-  k == "I" || k == "T" || k == "S" || k == "M" || k == "L" || k == "O"
+  k == "I" || k == "T" || k == "S" || k == "M" || k == "L" || k == "O" || k == "W"
 
 def addRow (steps : List (Bool × TabSpec)) (row : Str × List Str) : Option (List (Bool × TabSpec)) :=
   match steps with
@@ -133,6 +136,7 @@ def parseGroup (s : Spec) (g : List String) : Option Spec :=
     if s.u2e.kind == "C" then pure { s with u2eSteps := (← addRow s.u2eSteps row) }
     else pure { s with u2e := { s.u2e with rows := s.u2e.rows ++ [row] } }
   | ["Z", _, _] => some s
+  | ["K", _, _, _] => some s
   | ["fn", i, ok, o] => do
     let o ← unhexRunes? o
     let r := if (← bool? ok) then some o else none
@@ -178,6 +182,9 @@ def TabSpec.table (t : TabSpec) : Table :=
       match split k with
       | .ok (mbox, _) => .ok (some mbox)
       | .error _ => if t.kind == "O" then .ok (some k) else .ok none)
+  else if t.kind == "W" then
+    -- table.email_with_domain: the row keys are the domains, in order
+    if t.err then .multi (fun _ => .error ()) else emailWithDomainTable (t.rows.map (·.1))
   else if t.kind == "F" then
     -- table.file: every line with the key contributes its values
     .multi (fun k => if t.err then .error () else .ok (fileLookup t.rows k))
@@ -337,6 +344,17 @@ def handle (toks : List String) : String :=
       s!"{showRes (checkSender cfg c mf)} {showRes (checkBody cfg c hdr)}"
       | _, _, _ => "bad-op"
     | _, _, _, _, _ => "bad-op"
+  | [("merge" :: vs)] =>
+    -- the verdicts of the checks of one group at one stage, in completion order (q r i -)
+    let verdict? : String → Option Verdict
+      | "q" => some .quarantine
+      | "r" => some .reject
+      | "i" => some .none
+      | "-" => some .none
+      | _ => none
+    match vs.mapM verdict? with
+    | some l => if (mergeResults l).1 then "refused" else "passed"
+    | none => "bad-op"
   | [["sasl", ok, nf, authzid, authcid, pwOwner]] =>
     -- one AUTH PLAIN exchange: `ok nf` = the normaliser's answer for the login name (ok = 0: refused);
     -- the client sends the password of the account `pwOwner`; a password is the name of its account
